@@ -16,6 +16,8 @@ import FordModel.ExternalGraph
 import FordModel.Lemmas.ExternalGraph
 import FordModel.ExternalAssoc
 import FordModel.Lemmas.ExternalAssoc
+import FordModel.ExternalChild
+import FordModel.Lemmas.ExternalChild
 namespace Ford.C16
 open Ford Ford.Ext
 
@@ -645,6 +647,157 @@ example :
               .node "f".toList (some "proc/f.html".toList) "proc".toList (some "Function".toList) [])])]])).toOption.map
         (fun os => (entriesAll os).map (fun x => (x.list, x.cls)))) =
       some [("extModules".toList, "module".toList), ("extProcedures".toList, "function".toList)] := by
+  decide
+
+/-! ## Round 6: module-qualified references into A (`[[module:entity]]`, `[[type:component]]`) and the
+    state `dict2obj` leaves in the description -/
+
+/-- **`[[parent:child]]`, exact form.**  For every entity `m` of A (a module, a type, ...: any name, URL, kind,
+    attributes - no bound on their number or on the depth of the tree), looking the name `c` up among the
+    children of the *imported* `m` (`find_child(c)`: the lazy chain `children` in the probed order
+    `Gen.childrenOrder`, `_find_in_list`) never raises and finds exactly the import of the first entity of that
+    name (case-insensitively) in the list attributes `m` was exported with, taken in that order - with the class
+    defaults of the External class (`Gen.classDefaults`, a table fact: all iterable) for what the description
+    does not carry. -/
+theorem child_lookup_exact (b : Base) (p : Option Json) (name : Str) (url : Option Str) (obj : Str)
+    (pt : Option Str) (attrs : List (Str × Attr)) (c : Str) :
+    xFindChild (specE b p (.node name url obj pt attrs)) c none
+      = .ok ((firstChild c attrs Gen.childrenOrder).map (specE b (some (.str name)))) := by
+  simp only [specE, xFindChild]
+  exact findLazy_spec b (some (.str name)) (kindOf obj pt) c attrs Gen.childrenOrder
+
+/-- **`[[module:entity]]` reaches an entity of that name of that module, at its URL in A** (the clause "every
+    public entity of A that B ... names in a `[[...]]` reference is linked to a URL that ... documents that
+    entity", for the module-qualified form - the only form that reaches a module variable).  `e` is listed by `m`
+    in a list attribute that is exported (`∈ ATTRIBUTES`) and that `children` visits: then the look-up of its name
+    in the imported `m` succeeds, and what it finds is the import of an entity `c` that `m` lists under an exported,
+    visited attribute, named like `e` up to case, carrying A's location / `get_url c`. -/
+theorem child_reference_reaches_entity (b : Base) (p : Option Json) (name : Str) (url : Option Str) (obj : Str)
+    (pt : Option Str) (attrs : List (Str × Attr)) (a : Str) (xs : List Ent)
+    (ha : a ∈ Gen.childrenOrder) (hat : a ∈ Gen.attributes) (hl : attrs.lookup a = some (.list xs))
+    (en : Str) (eu : Option Str) (eo : Str) (ept : Option Str) (eats : List (Str × Attr))
+    (he : Ent.node en eu eo ept eats ∈ xs) :
+    ∃ a' xs' cn cu co cpt cats,
+      a' ∈ Gen.childrenOrder ∧ a' ∈ Gen.attributes ∧ attrs.lookup a' = some (.list xs') ∧
+      Ent.node cn cu co cpt cats ∈ xs' ∧ lower en = lower cn ∧
+      xFindChild (specE b p (.node name url obj pt attrs)) en none
+        = .ok (some (specE b (some (.str name)) (.node cn cu co cpt cats))) ∧
+      xUrl (specE b (some (.str name)) (.node cn cu co cpt cats)) = some (.str (rebase b (urlText cu))) := by
+  obtain ⟨c, hc⟩ := firstChild_complete en attrs Gen.childrenOrder a xs ha hat hl en eu eo ept eats he rfl
+  obtain ⟨a', xs', h1, h2, h3, h4, cn, cu, co, cpt, cats, h5, h6⟩ :=
+    firstChild_sound en attrs Gen.childrenOrder c hc
+  subst h5
+  refine ⟨a', xs', cn, cu, co, cpt, cats, h1, h2, h3, h4, h6, ?_, ?_⟩
+  · rw [child_lookup_exact, hc]; rfl
+  · simp [specE, xUrl]
+
+/-- **`[[parent:child(kind)]]`, exact form.**  With a kind that SUBLINK_TYPES maps to an exported attribute which
+    `m` carries as a list: the look-up never raises and finds exactly the import of the first entity of that name
+    in *that* list. -/
+theorem qualified_child_lookup_exact (b : Base) (p : Option Json) (name : Str) (url : Option Str) (obj : Str)
+    (pt : Option Str) (attrs : List (Str × Attr)) (kind a : Str) (xs : List Ent)
+    (hk : Gen.sublinkTypes.lookup (lower kind) = some a) (hat : a ∈ Gen.attributes)
+    (hl : attrs.lookup a = some (.list xs)) (c : Str) :
+    xFindChild (specE b p (.node name url obj pt attrs)) c (some kind)
+      = .ok ((firstNamed c xs).map (specE b (some (.str name)))) := by
+  simp only [specE, xFindChild, hk, attrVal_spec, hat, if_true, hl]
+  exact xFindIn_specList b (some (.str name)) c xs
+
+/-- **`[[module:entity(kind)]]` reaches an entity of that name and kind.** -/
+theorem qualified_child_reference_reaches_entity (b : Base) (p : Option Json) (name : Str) (url : Option Str)
+    (obj : Str) (pt : Option Str) (attrs : List (Str × Attr)) (kind a : Str) (xs : List Ent)
+    (hk : Gen.sublinkTypes.lookup (lower kind) = some a) (hat : a ∈ Gen.attributes)
+    (hl : attrs.lookup a = some (.list xs))
+    (en : Str) (eu : Option Str) (eo : Str) (ept : Option Str) (eats : List (Str × Attr))
+    (he : Ent.node en eu eo ept eats ∈ xs) :
+    ∃ cn cu co cpt cats, Ent.node cn cu co cpt cats ∈ xs ∧ lower en = lower cn ∧
+      xFindChild (specE b p (.node name url obj pt attrs)) en (some kind)
+        = .ok (some (specE b (some (.str name)) (.node cn cu co cpt cats))) ∧
+      xUrl (specE b (some (.str name)) (.node cn cu co cpt cats)) = some (.str (rebase b (urlText cu))) := by
+  obtain ⟨c, hc⟩ := firstNamed_complete en xs en eu eo ept eats he rfl
+  obtain ⟨h4, cn, cu, co, cpt, cats, h5, h6⟩ := firstNamed_sound en xs c hc
+  subst h5
+  refine ⟨cn, cu, co, cpt, cats, h4, h6, ?_, ?_⟩
+  · rw [qualified_child_lookup_exact b p name url obj pt attrs kind a xs hk hat hl, hc]; rfl
+  · simp [specE, xUrl]
+
+/-- **Table facts the two theorems above lean on** (`decide` on the probed tables): every plain list of entities a
+    description carries - `functions`, `subroutines`, `interfaces`, `absinterfaces`, `types`, `variables`,
+    `boundprocs` - is exported (`ATTRIBUTES`) *and* visited by `children`, and the kind words of the link syntax
+    lead to these very lists; what the External classes set themselves can be iterated. -/
+theorem child_lists_exported_and_visited :
+    (∀ a ∈ [chars! "functions", chars! "subroutines", chars! "interfaces", chars! "absinterfaces", chars! "types",
+            chars! "variables", chars! "boundprocs"], a ∈ Gen.attributes ∧ a ∈ Gen.childrenOrder) ∧
+    (∀ kv ∈ [(chars! "function", chars! "functions"), (chars! "subroutine", chars! "subroutines"),
+             (chars! "interface", chars! "interfaces"), (chars! "absinterface", chars! "absinterfaces"),
+             (chars! "type", chars! "types"), (chars! "variable", chars! "variables"),
+             (chars! "bound", chars! "boundprocs")], Gen.sublinkTypes.lookup kv.1 = some kv.2) ∧
+    Gen.classDefaults.all (fun row => row.2.all (fun p => p.2 == kList || p.2 == kDict || p.2 == kStr)) = true := by
+  decide
+
+/-- **Why the plain lists have to be converted** (witness, `decide`): an imported module that has its `pub_vars`
+    table but not its `variables` list - what "build only the `pub_*` tables" gives - answers `[[geom:origin]]`
+    with nothing, so that `convert_link` falls back to the module's own page, and `[[geom:origin(variable)]]` with
+    a ValueError that ends the run; the module imported as the code imports it reaches the variable. -/
+theorem module_without_its_plain_lists_loses_child_references_witness :
+    let v : XObj := .node (chars! "variable") (.str (chars! "origin")) (.str (chars! "/A/doc/module/geom.html#variable-origin"))
+      (some (.str (chars! "geom"))) none []
+    let lean : XObj := .node (chars! "module") (.str (chars! "geom")) (.str (chars! "/A/doc/module/geom.html")) none none
+      [(chars! "pub_vars", .dict [(chars! "origin", v)])]
+    let full : XObj := .node (chars! "module") (.str (chars! "geom")) (.str (chars! "/A/doc/module/geom.html")) none none
+      [(chars! "pub_vars", .dict [(chars! "origin", v)]), (chars! "variables", .list [v])]
+    outcome (xFindChild lean (chars! "origin") none) = [chars! "none"] ∧
+    outcome (resolveRef (some lean) (some (chars! "origin")) none)
+      = [chars! "module", chars! "geom", chars! "/A/doc/module/geom.html"] ∧
+    outcome (xFindChild lean (chars! "origin") (some (chars! "variable"))) = [chars! "ValueError"] ∧
+    outcome (resolveRef (some full) (some (chars! "Origin")) none)
+      = [chars! "variable", chars! "origin", chars! "/A/doc/module/geom.html#variable-origin"] ∧
+    outcome (xFindChild full (chars! "origin") (some (chars! "Variable")))
+      = [chars! "variable", chars! "origin", chars! "/A/doc/module/geom.html#variable-origin"] := by
+  decide
+
+/-- **Stripping is not idempotent: the second conversion of the same dictionary loses the directory.**
+    `dict2obj` stores `external_url.split("/", 1)[-1]` back into the dictionary it was given.  On the exported
+    `./dir/rest` the first conversion leaves `dir/rest` (= `get_url()`, `strip_first_segment`); a second conversion
+    of the *same* dictionary would re-base `rest` alone - for every directory name and every rest. -/
+theorem second_strip_loses_directory (dir rest : Str) (hd : '/' ∉ dir) :
+    afterFirstSlash ('.' :: '/' :: (dir ++ '/' :: rest)) = dir ++ '/' :: rest ∧
+    afterFirstSlash (afterFirstSlash ('.' :: '/' :: (dir ++ '/' :: rest))) = rest := by
+  rw [afterFirstSlash_dot_slash]
+  exact ⟨rfl, afterFirstSlash_append dir rest hd⟩
+
+/-- a stripped URL without a directory left is a fixed point: only then would a second conversion be harmless -/
+theorem strip_fixed_point (s : Str) (h : '/' ∉ s) : afterFirstSlash s = s := by
+  simp [afterFirstSlash, afterFirstSlashAux_none s h]
+
+/-- **Every load has to start from a freshly parsed description** (witness, `decide`): the model of the state
+    `dict2obj` leaves behind (`rewriteJ`, corresponded with the real dictionary after `load_external_modules`)
+    converted a second time puts the module at `/A/doc/geom.html`; the description as parsed from the file at
+    `/A/doc/module/geom.html`. -/
+theorem converting_the_same_dictionary_twice_witness :
+    let j : Json := .obj [(kName, .str (chars! "geom")), (kUrl, .str (chars! "./module/geom.html")),
+                          (kObj, .str (chars! "module"))]
+    let b : Base := { remote := false, url := chars! "/A/doc" }
+    ((dict2obj b none j).toOption.bind xUrl).map jsonText = some (chars! "/A/doc/module/geom.html") ∧
+    ((dict2obj b none (rewriteJ j)).toOption.bind xUrl).map jsonText = some (chars! "/A/doc/geom.html") := by
+  decide
+
+/-- Non-vacuity of `child_reference_reaches_entity` / `qualified_child_lookup_exact`: a module exported with a
+    type and a constructor interface of the same name plus a variable: `[[m:origin]]` reaches the variable,
+    `[[m:vec]]` the type (types come before interfaces in `children`), `[[m:vec(interface)]]` the interface. -/
+example :
+    let m : Ent := .node (chars! "m") (some (chars! "module/m.html")) (chars! "module") none
+      [(chars! "interfaces", .list [.node (chars! "vec") (some (chars! "interface/vec.html")) (chars! "interface")
+                                      (some (chars! "Interface")) []]),
+       (chars! "types", .list [.node (chars! "vec") (some (chars! "type/vec.html")) (chars! "type") none []]),
+       (chars! "variables", .list [.node (chars! "Origin") (some (chars! "module/m.html#variable-origin"))
+                                      (chars! "variable") none []])]
+    let b : Base := { remote := false, url := chars! "/A/doc" }
+    outcome (xFindChild (specE b none m) (chars! "origin") none)
+      = [chars! "variable", chars! "Origin", chars! "/A/doc/module/m.html#variable-origin"] ∧
+    outcome (xFindChild (specE b none m) (chars! "VEC") none) = [chars! "type", chars! "vec", chars! "/A/doc/type/vec.html"] ∧
+    outcome (xFindChild (specE b none m) (chars! "vec") (some (chars! "Interface")))
+      = [chars! "interface", chars! "vec", chars! "/A/doc/interface/vec.html"] := by
   decide
 
 end Ford.C16
